@@ -427,6 +427,8 @@ class Exec:
                 self.assign(t, v, s)
                 if isinstance(t, ast.Name):
                     c = self.class_of(s.value)
+                    if _TRACE and _TRACE == self.fi.short:
+                        print("TRACE type", t.id, "<-", getattr(c, "qualname", None))
                     if c is not None:
                         self.tenv[t.id] = c
                     else:
@@ -611,6 +613,26 @@ class Exec:
                 r = self.an.repo.resolve_dotted(self.fi.module, d)
                 if isinstance(r, ClassInfo):
                     return r
+                if isinstance(r, FuncInfo) and r.parent is None:
+                    # a factory: every return is a constructor call -> the most specific common class
+                    ks = []
+                    for n in ast.walk(r.node):
+                        if isinstance(n, ast.Return) and n.value is not None:
+                            if isinstance(n.value, ast.Call):
+                                k = self.an.repo.resolve_dotted(r.module, dotted(n.value.func) or "")
+                                if isinstance(k, ClassInfo):
+                                    ks.append(k)
+                                    continue
+                            ks = None
+                            break
+                    if ks:
+                        common = None
+                        for a in ks[0].mro():
+                            if all(a in k.mro() for k in ks):
+                                common = a
+                                break
+                        if common is not None:
+                            return common
         if isinstance(e, ast.Name):
             return self.lookup_type(e.id)
         return None
